@@ -649,11 +649,11 @@ C10_EK = ['c10_helmholtz_energy', 'c10_entropy', 'c10_ds_dt', 'c10_d2s_dt2', 'c1
 
 def check_C11(tier, only):
     out = Outcome('C11', tier, 'model_checking')
-    inc = ['c11_cache_history_1', 'c11_cache_history_2', 'c11_cache_history_2_reach', 'c11_cache_history_clone_2']
+    inc = ['c11_cache_history_1', 'c11_cache_history_2', 'c11_cache_history_2_reach']
     pairs = json.load(open(os.path.join(VERIF, 'kani', 'c11_pairs.json')))
     ext = [p['name'] for p in pairs if p['tier'] == 'quick' or (tier == 'thorough' and p['tier'] == 'thorough')]
     if tier == 'thorough':
-        inc += ['c11_cache_history_3', 'c11_cache_history_3_reach']
+        inc += ['c11_cache_history_clone_2', 'c11_cache_history_3', 'c11_cache_history_3_reach']   # clone_2 alone takes ~10 min
     cov = ek_part(out, 'C11', tier, [('incrate', h) for h in inc] + [('ext', h) for h in ext], only,
                   ['cache level (in-crate): every history of <= %d calls of Cache::get_or_insert_with_{f64,d64,d2_64,hd64,hd364} with symbolic method, symbolic Derivative keys (2 components) and an oracle of arbitrary f64 '
                    'bit patterns returns bitwise the oracle value of the requested key; also across a clone taken between calls' % (3 if tier == 'thorough' else 2),
